@@ -2,6 +2,7 @@
 use crate::engine::Prop;
 
 pub mod c02_c13;
+pub mod c06;
 pub mod c16;
 pub mod consist_lab;
 pub mod pt_props;
@@ -16,6 +17,7 @@ pub fn get(id: &str) -> Option<Box<dyn Prop>> {
         "C09" => Some(Box::new(pt_props::PtProp { which: "C09" })),
         "C10" => Some(Box::new(pt_props::C10)),
         "C16" => Some(Box::new(c16::C16)),
+        "C06" => Some(Box::new(c06::C06)),
         _ => None,
     }
 }
